@@ -496,7 +496,7 @@ def warping_paths(s1, s2, psi_neg=True, keep_int_repr=False, **kwargs):
             mic = argmin(vc)
             vc_mic = vc[mic]
         else:
-            mic = ic
+            mic = 0
             vc_mic = inf
         if vr_mir < vc_mic:
             if psi_neg:
@@ -624,7 +624,7 @@ def warping_paths_affinity(s1, s2, window=None, only_triu=False,
             mic = argmax(vc)
             vc_mic = vc[mic]
         else:
-            mic = ic
+            mic = 0
             vc_mic = inf
         if vr_mir > vc_mic:
             if psi_neg:
